@@ -35,7 +35,9 @@ Choose == /\ phase = "start" /\ ws' \in WorldSel
           /\ keys' \in KeyLists /\ fns' \in AggLists /\ flt' \in DOMAIN Filters
           /\ \/ shown' = Len(keys') /\ ord' \in Orders(keys', fns')
              \/ /\ fns' \in ExactLists /\ shown' \in 0 .. Len(keys') - 1
-                /\ ord' \in { o \in Orders(keys', fns') : \A x \in 1 .. Len(o) : o[x].by = "agg" \/ (o[x].by = "key" /\ o[x].i <= shown') }
+                \* (also ordered by one key that is not selected: the judge tells the groups apart by their aggregates)
+                /\ ord' \in { o \in Orders(keys', fns') : (\A x \in 1 .. Len(o) : o[x].by = "agg" \/ (o[x].by = "key" /\ o[x].i <= shown'))
+                                                            \/ (Len(o) = 1 /\ o[1].by = "key") }
           /\ phase' = "done"
 Next == Choose
 Spec == Init /\ [][Next]_vars
@@ -55,7 +57,8 @@ OrdClass == IF ord = <<>> THEN "none" ELSE ord[1].by \o (IF ord[1].desc THEN "-d
 WKey(x) == IF x = 0 THEN "W7" ELSE "R" \o ToString(x)
 Scenario == [prop |-> "C08", world |-> WKey(ws),
              class |-> (IF ws = 0 THEN "" ELSE "rnd/") \o "group=" \o KeysText(1) \o "/" \o OrdClass \o (IF flt = "all" THEN "" ELSE "/where")
-                       \o (IF shown < Len(keys) THEN "/shown" \o ToString(shown) ELSE ""),
+                       \o (IF shown < Len(keys) THEN "/shown" \o ToString(shown) ELSE "")
+                       \o (IF Len(ord) = 1 /\ ord[1].by = "key" /\ ord[1].i > shown THEN "/ordered-by-hidden-key" ELSE ""),
              fns |-> fns, col |-> "size", keys |-> keys, order |-> ord, shown |-> shown,
              formula |-> [f |-> "prefix", toks |-> Filters[flt], atoms |-> FAtoms],
              env |-> [tz |-> "UTC", cwd |-> 0],
